@@ -229,6 +229,16 @@ def handle (d : D) : List String → D × String
           | e => if e.isCancelledError then "cancelled" else s!"failed {evStr e}"
       (d, s)
     | none => (d, "UNKNOWN")
+  | ["q", "failat", l] =>
+    -- fail_at's last line: raise TimeoutError iff cancelled_caught and current_time() >= deadline
+    match l.toNat?.bind (look d.scopes) with
+    | some s =>
+      let sc := d.st.scopes s
+      let due := match sc.deadline with
+        | some dl => decide (dl ≤ d.st.now)
+        | none => false
+      (d, Driver.bool01 (sc.caught && due))
+    | none => (d, "UNKNOWN")
   | ["q", "idle"] =>
     (d, s!"ready={d.st.ready.length + d.st.cur.length} timers={d.st.timers.length}")
   | ["q", "effdl", t] =>
